@@ -4,3 +4,4 @@ pub mod a3;
 pub mod a4;
 pub mod a5;
 pub mod a6;
+pub mod a7;
